@@ -867,7 +867,10 @@ func (g *PG) genMacroDef() []*canon.Node {
 	var def *canon.Node
 	uq := func(s string) *canon.Node { return li(sy("unquote"), sy(s)) }
 	arity := 2
-	switch r.Intn(10) {
+	switch r.Intn(11) {
+	case 10: // the expansion is the first operand form itself
+		g.stat("macro-expands-to-operand")
+		def = li(sy("fn"), li(sy("x"), sy("y")), sy("x"))
 	case 0: // unless-like: operands must arrive unevaluated, only one branch evaluated
 		def = li(sy("fn"), li(sy("c"), sy("x")), li(sy("quasiquote"), li(sy("if"), uq("c"), canon.Ke("skipped"), uq("x"))))
 	case 1: // evaluates operand twice
@@ -915,6 +918,11 @@ func (g *PG) genMacroDef() []*canon.Node {
 	g.macros = append(g.macros, name)
 	g.marity[name] = arity
 	forms := append(pre, li(sy("defmacro"), sy(name), def))
+	if arity == 2 && r.Intn(4) == 0 {
+		// macroexpand returns the expansion as data: the operand forms (and the expansion) are not evaluated
+		g.stat("macroexpand-as-data")
+		forms = append(forms, g.tr(li(sy("macroexpand"), li(sy(name), li(sy("trace!"), canon.Ke("only-expanded-"+name)), canon.In(1)))))
+	}
 	if arity == 2 && r.Intn(3) == 0 {
 		// one call site evaluated several times (a function body): the macro is expanded at every evaluation
 		g.stat("macro-call-site-evaluated-repeatedly")
